@@ -1181,9 +1181,8 @@ func checkExecuteFromSlave(reqCtx *util.RequestContext, c *SessionExecutor, sql 
 	// send sql `select ... for update [nowait/skip locked]`
 	// or `select ... in share mode [nowait/skip locked]` to master
 	if c.GetNamespace().CheckSelectLock {
-		if len(tokens) < 2 {
-			return true
-		}
+		// (a statement whose words are separated by form feeds or vertical tabs is one token for the
+		// tokenizer: it is examined like any other, it is not a reason to read from a replica)
 		// the locking clause is looked for at the end of the statement proper: comments
 		// (drivers append trace comments) and a final semicolon do not count
 		lastSecondWord, lastFirstWord := lastTwoWordsOfStatement(sql)
@@ -1328,7 +1327,7 @@ func lastTwoWordsOfStatement(sql string) (second string, last string) {
 			} else {
 				i = i + end
 			}
-		case ch == ' ' || ch == '\t' || ch == '\n' || ch == '\r' || ch == ';' || ch == ',' || ch == '(' || ch == ')':
+		case ch == ' ' || ch == '\t' || ch == '\n' || ch == '\r' || ch == '\f' || ch == '\v' || ch == ';' || ch == ',' || ch == '(' || ch == ')':
 			flush()
 		default:
 			cur = append(cur, ch)
@@ -1544,6 +1543,10 @@ func (se *SessionExecutor) handleShow(reqCtx *util.RequestContext, sql string) (
 	}
 	// handle show variables like '%read_only%' default to master
 	if strings.Contains(strings.ToLower(sql), readonlyVariable) && se.GetNamespace().IsAllowWrite(se.user) {
+		reqCtx.SetFromSlave(false)
+	}
+	// a master hint counts for SHOW as it does for SELECT
+	if hasMasterHintComment(sql) && se.GetNamespace().IsAllowWrite(se.user) {
 		reqCtx.SetFromSlave(false)
 	}
 	r, err := se.ExecuteSQL(reqCtx, se.GetNamespace().GetDefaultSlice(), se.db, sql)
